@@ -623,7 +623,13 @@ func (w *_builderRepr) Build() datamodel.Node {
 }
 
 func (w *_builderRepr) Reset() {
-	panic("bindnode TODO: Reset")
+	// Start over with a fresh value of the same Go type;
+	// a node returned by an earlier Build keeps the old value.
+	*w = _builderRepr{_assemblerRepr{
+		cfg:        w.cfg,
+		schemaType: w.schemaType,
+		val:        reflect.New(w.val.Type()).Elem(),
+	}}
 }
 
 type _assemblerRepr struct {
